@@ -38,8 +38,11 @@ char* Format02d(char* p, int v) {
 int Parse02d(const char* p) {
   if (const char* ap = std::strchr(kDigits, *p)) {
     int v = static_cast<int>(ap - kDigits);
+    if (v >= 10) return -1;  // '\0'
     if (const char* bp = std::strchr(kDigits, *++p)) {
-      return (v * 10) + static_cast<int>(bp - kDigits);
+      int w = static_cast<int>(bp - kDigits);
+      if (w >= 10) return -1;  // '\0'
+      return (v * 10) + w;
     }
   }
   return -1;
